@@ -18,7 +18,7 @@ RULE += ('; also: values with an unusual == (equal to everything / no truth valu
 ASSUMPTIONS = ['arguments are JSON-representable values (so equality after a pickle round trip is value equality), plus two resume values with an unusual == '
                '(equal to anything; == without a truth value) compared by their repr',
                'reference interpreter written from the property statement']
-REQUIRED = ['subclassed_commands', 'paused_hook_checkpoints', 'exit_window_restores', 'resume_with_pause', 'mutating_chains', 'continuations', 'kwargs_checked', 'resume_with_value', 'resume_without_value', 'restored_runs', 'terminal/finished', 'terminal/killed',
+REQUIRED = ['uncopyable_arguments', 'subclassed_commands', 'paused_hook_checkpoints', 'exit_window_restores', 'resume_with_pause', 'mutating_chains', 'continuations', 'kwargs_checked', 'resume_with_value', 'resume_without_value', 'restored_runs', 'terminal/finished', 'terminal/killed',
             'terminal/excepted', 'unsuccessful']
 BOUNDS = {'quick': 'all 2-command chains over the shape alphabet + 300 random chains of length 3-4; restore: all boundaries at once and each singly',
           'thorough': '3000 random chains, every subset of <=2 boundaries'}
@@ -59,6 +59,8 @@ def _chains(tier, seed):
 
 
 def gen_cases(tier, seed):
+    for case in _gen_uncopyable():
+        yield case
     for ci, (prog, resumes) in enumerate(_chains(tier, seed)):
         if ci % 2 and any(isinstance(v, (list, dict)) for st in prog['steps'] if st['ret'][0] == 'cont'
                           for v in list(st['ret'][1]) + list(st['ret'][2].values())):
@@ -89,6 +91,22 @@ def gen_cases(tier, seed):
                 yield {'program': prog, 'resumes': resumes, 'crash': [], 'ci': ci, 'resume_mode': mode}
 
 
+def _gen_uncopyable():
+    # arguments and wake-up values that cannot be copied (handles, locks, live objects): without a checkpoint in between nothing has to
+    # copy them -- the continuation gets them as they are
+    S = programs.step
+    for sync in (True, False):
+        for term in (['value', 7], ['stop', 'r', True]):
+            prog = {'steps': [S(['cont', ['@NOCOPY', 1], {'k': '@NOCOPY'}], sync=sync, yields=0 if sync else 1), S(['cont', ['@NOCOPY'], {}], sync=True), S(term, sync=sync, yields=0 if sync else 1)]}
+            yield {'program': prog, 'resumes': [], 'crash': [], 'ci': -1, 'uncopyable': True}
+            prog = {'steps': [S(['wait', 'm', None], sync=sync, yields=0 if sync else 1), S(term, sync=True)]}
+            for mode in (None, 'pause-resume', 'resume-pause'):
+                case = {'program': prog, 'resumes': [[True, '@NOCOPY']], 'crash': [], 'ci': -1, 'uncopyable': True}
+                if mode:
+                    case['resume_mode'] = mode
+                yield case
+
+
 def run_case(case):
     prog = case['program']
     cls = programs.program_class(prog)
@@ -101,7 +119,7 @@ def run_case(case):
     xc = case.get('exit_crash')
     r = persist.run_with_crashes(lambda loop: cls(loop=loop), case['crash'], resume_for_wait, resume_mode=case.get('resume_mode', 'plain'),
                                  exit_crashes=() if xc is None else (xc,), paused_crashes=() if case.get('paused_crash') is None else (case['paused_crash'],))
-    obs = {'continuations': 0, 'kwargs_checked': 0, 'resume_with_value': 0, 'resume_without_value': 0, 'restored_runs': 0, 'terminal': {},
+    obs = {'uncopyable_arguments': int(bool(case.get('uncopyable'))), 'continuations': 0, 'kwargs_checked': 0, 'resume_with_value': 0, 'resume_without_value': 0, 'restored_runs': 0, 'terminal': {},
            'unsuccessful': 0, 'resume_with_pause': int(bool(case.get('resume_mode'))), 'paused_hook_checkpoints': 0, 'subclassed_commands': int(bool(prog.get('own_commands')))}
     if r.get('inconclusive'):
         lv = []
